@@ -41,6 +41,9 @@ def check_case(out, rng, px, py, par_kw, sess, pending):
   tq_sig, tq_pow = stats.t.ppf(sig, n - 2), stats.t.ppf(pw, n - 2)
   phi = stats.f.ppf(fl, 1, n - 1)
   facts = {'call': 'required_impact', 'n_pre': n, 'tq_sum': float(tq_sig + tq_pow), 'sig_level': sig, 'power_level': pw}
+  if not en.conditioned(px, py):
+    out.count(None)      # (nearly) collinear series: the class refuses |corr| >= 1 with ValueError; outside the claim
+    return
   d = tbrmmdiagnostics.TBRMMDiagnostics(py, par)
   d.x = px
   if d.required_impact is None:
